@@ -46,4 +46,14 @@ def cXor (w : Nat) (a b : Int) : Int := ((pat w a ^^^ pat w b : Nat) : Int)
 /-- `__builtin_clz` on a non-zero `uint32_t` (undefined for 0 in C; 31 − log2 here) -/
 def cClz32 (n : Int) : Int := 31 - (Nat.log2 n.toNat : Int)
 
+/-- a write log of a callee (offsets relative to its pointer argument) seen from the caller, whose argument
+    was `base + off` -/
+def shiftLog (off : Int) (l : List (Int × Int)) : List (Int × Int) := l.map (fun e => (off + e.1, e.2))
+
+/-- `while (c s) s = f s` with at most `fuel + 1` evaluations of the condition: `none` when the condition still holds
+    after `fuel` iterations (the translator's bound was too small — the equality theorems show this never happens) -/
+def cWhile {σ : Type} : Nat → (σ → Bool) → (σ → σ) → σ → Option σ
+  | 0, c, _, s => if c s then none else some s
+  | n + 1, c, f, s => if c s then cWhile n c f (f s) else some s
+
 end Draco.CInt
